@@ -126,7 +126,7 @@ def _mk_root(darsia, cfg):
     times = dates = None
     if T:
         if cfg["timeinfo"] == "dates":
-            dates = [BASE + timedelta(hours=3 * i + i * i) for i in range(T)]
+            dates = [BASE + timedelta(days=i, hours=3 * i + i * i, microseconds=125000 * i) for i in range(T)]
             kw["date"] = list(dates)
             times = [(d - dates[0]).total_seconds() for d in dates]
         elif cfg["timeinfo"] == "times":
@@ -307,7 +307,7 @@ def body_assemble(cfg, darsia):
     ti = cfg["timeinfo"]
     dims = [S.real(f"d{m}", lo="1/10000", hi=10000) for m in range(dim)]
     org = [S.real(f"o{a}", lo=-1000, hi=1000) for a in range(dim)]
-    ref = BASE - timedelta(hours=5)
+    ref = BASE + timedelta(hours=7)  # later than the first image: negative, multi-day and sub-second offsets all occur
     imgs, datas, dates, times, offs = [], [], [], [], []
     for i in range(n):
         full = shape + ((2,) if cfg["vector"] else ())
@@ -315,7 +315,7 @@ def body_assemble(cfg, darsia):
         kw = dict(dimensions=list(dims), origin=list(org), space_dim=dim, scalar=not cfg["vector"])
         d = t = None
         if ti.startswith("dates"):
-            d = BASE + timedelta(hours=2 * i + i * i)
+            d = BASE + timedelta(days=i, hours=2 * i + i * i, microseconds=250000 * i)
             kw["date"] = d
             if ti == "dates_shared_ref":
                 kw["reference_date"] = ref
